@@ -48,6 +48,11 @@ CHECKS = {
   text="Every history over {Next, Scan, Err, Close} up to length 6 (quick) / 7 (thorough) on 8 kinds of query, and every merge of two short histories on two Solutions of one interpreter, is run on the real code under every schedule with at most 2/3 preemptions. A blocking call is decided exactly (no enabled thread), as are goroutine leaks after Close/exhaustion and goals running after Close; results are compared with a sequential iterator model.",
   note="Trusted: the syntactic rewriter and the shim's model of Go channels (DESIGN.md Appendix B); schedules are explored up to the stated preemption bound; data races are outside a cooperative scheduler's view (separate -race pass planned).",
   design="DESIGN.md §3 C12"),
+ "C13": dict(
+  technique="bounded-exhaustive enumeration of (looping program, wrapper nesting, call position, cancellation instant) with a deterministic cancellation seam on the real interpreter: the writer given as user_output calls the real cancel() at the k-th byte, k = 0..K, so every poll class of every loop iteration is hit; oracle = returned error, bounded number of further side effects, follow-up queries vs a fresh interpreter; a per-case watchdog turns 'does not return' into a reported violation",
+  text="Every combination of 13 loops, 12 wrappers (nested), 7 call positions (query, second answer, directive, initialization goal, term_expansion body, consulted file via consult/1 and via an ensure_loaded/1 directive) and every cancellation instant up to 12 (quick) / 60 (thorough) bytes of loop output is executed; the pending call must return the context's error, at most 64 bytes may follow cancel(), and the interpreter must then answer follow-up queries (and be able to reload the file) like a fresh one.",
+  note="Cancellation instants are enumerated as 'k-th observable side effect', which covers every class 'first poll that sees it' for loops that write; loops that write nothing are cancelled from a timer (instants not controlled). 'Promptly' is decided as a step bound plus a 25 s horizon, never as a latency.",
+  design="DESIGN.md §3 C13"),
  "C14": dict(
   technique="stateless model checking of the real atom table / variable counter under a controlled scheduler (sync and sync/atomic of engine/atom.go, engine/variable.go routed through a shim at build time): all pairs/triples of short thread programs under every interleaving within a preemption bound, each recorded call/return history checked for linearizability with porcupine; two interpreters running small queries under every schedule within a deviation bound; exhaustive mutator x observer isolation matrix; separate free-running -race pass",
   text="The shared process-wide state (atom table, variable counter) is exercised by every combination of short thread programs forced to collide on names that are new in each execution, under all interleavings at lock/unlock/atomic operations up to 3 (quick) / 6 (thorough) preemptions; linearizability against a sequential map is decided per schedule. Isolation is decided exhaustively for 19 mutators x 23 observers in two stream configurations. Data-race freedom proper is left to the race detector on free-running runs of the same kind of bodies, because a cooperative scheduler cannot see unsynchronised accesses.",
